@@ -22,7 +22,7 @@ QUICK = {
     "C16": ["ad_bo_n2", "ad_tbo_n2"],
     "C17": ["fub_poll_c2", "fob_poll_c2", "fo_observe_c2", "ad_bu_n2", "ad_tbu_n2", "ad_bo_n2"],
     "C03": ["wl_shape0_c2", "wl_shape1_c2", "wl_shape2_c2", "wl_shape3_c2", "wl_fifo_c2", "wl_layout"],
-    "C18": ["fub_poll_c2", "fub_push_c2", "fub_wake_c2", "ja_poll_n2", "fu_push_12", "fu_poll_2", "fu_rot_124_c0", "fu_rot_124_c1", "ad_bu_n2", "mu_push_12"],
+    "C18": ["fub_poll_c2", "fub_push_c2", "fub_wake_c2", "ja_poll_n2", "tja_poll_n2", "fu_push_12", "fu_poll_2", "fu_rot_124_c0", "fu_rot_124_c1", "ad_bu_n2", "mu_push_12"],
 }
 
 def h(name, props, tiers, unwind=6, unwindset=None, covers=(), timeout=900, mem=8, layer="model",
